@@ -67,10 +67,13 @@ CLAIMED = {
     "C15": ("output monitor on every ClockworkScheduler decision inside full simulations of model-serving worlds (batch membership, size, model loaded, fit, earliest deadline, placed-once, admission)",
             "held on the K invocations with persisting queues, pre-loaded and policy-loaded models, both goals",
             "DESIGN.md 4/C15", E2E_NOTE),
+    "C14": ("differential monitor: real planners vs an exhaustive reference search (vmon/brute.py) on tiny generated planning instances (direct schedule() calls)",
+            "held on the K enumerable instances (<=4 offered tasks, <=2 workers, <=2 strategies, deadlines within 10us, grid 1-3) for ILP goodput optimality and TetriSched plan maximality",
+            "DESIGN.md 4/C14", "Trusted base: the reference search and its statement of the planners' time conventions (see evidence assumptions). Solver gap cannot hide one task/graph at these sizes (asserted per instance)."),
 }
 
 _WIP = "check not built yet in this session; planned with the same technique, see DESIGN.md section 4"
-NOT_YET = {p: _WIP for p in ["C14", "C20"]}
+NOT_YET = {p: _WIP for p in ["C20"]}
 
 
 def build():
